@@ -248,7 +248,7 @@ CHECK = Check(
     rule=('adjust: 12-80 (thorough 200) rows, 1-4 scalar summaries, 1-3 parameters on a real ElfiModel (observed Simulator + column '
           'Summaries) and a directly constructed Sample; nan/inf/-inf injected into summaries and individual parameters, rows whose '
           'summaries equal the observed ones, a random invertible affine re-expression. compare: 2-5 Samples with distinct pooled '
-          'discrepancies (sorted or unsorted), different n_samples/n_sim, optional prior weights, a permutation. Non-trivial: adjust = '
+          'discrepancies (sorted or unsorted), different n_samples/n_sim, optional prior weights (positive or exactly 0, array or list), a permutation; adjust: parameters and summaries of magnitude 1e-9 / 1 / 1e6, integer-typed parameters. Non-trivial: adjust = '
           '>=2 summaries with >=1 non-finite row; compare = unequal n_sim.'),
     parts=[Part('adjust', run_adjust, strategy=strat_adjust, examples={'quick': 500, 'thorough': 24000}),
            Part('compare', run_compare, strategy=strat_compare, examples={'quick': 800, 'thorough': 48000})],
